@@ -125,6 +125,9 @@ func run(c *h.Check) {
 			c.Sample(map[string]any{"program": p.String()})
 		}
 	}
+	for _, m := range midcases() {
+		c.Explore(midScenario(m), bound, 0, false)
+	}
 	if c.Thorough() {
 		for _, p := range concurrent() {
 			q := *p
@@ -140,13 +143,18 @@ func replay(c *h.Check, rf *h.ReplayFile) []vrt.Violation {
 			return h.ReplaySchedule(scenario(p), rf)
 		}
 	}
+	for _, m := range midcases() {
+		if m.name() == rf.Scenario {
+			return h.ReplaySchedule(midScenario(m), rf)
+		}
+	}
 	vrt.MachineryFault("unknown scenario %q", rf.Scenario)
 	return nil
 }
 
 func main() {
 	h.Main("C04", "model_checking", []string{
-		"only contexts cancelled before PublishContext is called count as 'already cancelled' (a cancellation racing the publish is not held against the code)",
+		"in the registry programs only contexts cancelled before PublishContext is called count as 'already cancelled'; the cancel-mid-publish scenarios judge only the total (exactly one invocation once a live publish has followed), not in which publish it happened",
 		"scheduling points at synchronisation operations; sequentially consistent memory; preemption bound as stated",
 	}, run, replay, nil)
 }
